@@ -87,11 +87,12 @@ func (s *sharedEntryAttributes) toJsonInternal(onlyNewOrUpdated bool, ietf bool)
 			return result, nil
 		case s.schema.GetContainer().IsPresence && s.containsOnlyDefaults():
 			// Presence container without any childs
+			// presence containers have leafvariantes with typedValue_Empty, so check that
+			// (a container that is being deleted is in neither view)
+			if s.leafVariants.shouldDelete() {
+				return nil, nil
+			}
 			if onlyNewOrUpdated {
-				// presence containers have leafvariantes with typedValue_Empty, so check that
-				if s.leafVariants.shouldDelete() {
-					return nil, nil
-				}
 				le := s.leafVariants.GetHighestPrecedence(false, false)
 				if onlyNewOrUpdated && !(le.IsNew || le.IsUpdated) {
 					return nil, nil
